@@ -7,7 +7,8 @@
      np.fromfile(n)     the next n value tokens, white space (markers) skipped before each of them AND after the last
                         one; it fails (short read, rejected later by the constructor / reshape) when a word comes first
    A text that looks like an integer is accepted where a value is expected (float("3") = 3.0): [ofZ].
-   Tokens on a line are separated by single blanks (what export_data writes); other white space is outside the model.
+   Tokens on a line are separated by single blanks (what export_data writes); runs of blanks, tab / VT / FF and CR LF line
+   ends are brought to this form by Model/C16Text.v (gap marker [Word ""]).
    Definitions only. *)
 From Coq Require Import String.
 From Coq Require Import List Arith ZArith Lia Bool.
@@ -122,7 +123,13 @@ Fixpoint rd_entries_l (b : Z) (N nz : nat) (s : stream) : option (list (idx * D)
       e <- entry_of_line b N (fst p) ;; q <- rd_entries_l b N nz' (snd p) ;; Some (e :: q)
   end.
 
+(* `fp.readline()` n times, whatever the lines hold *)
+Fixpoint drop_lines (n : nat) (s : stream) : stream :=
+  match n with O => s | S n' => drop_lines n' (snd (readline s)) end.
+
 (* the per-mode loop of the ktensor branch: one line skipped WHATEVER it holds, a shape, the entries, C-order reshape;
+   a factor WITHOUT entries (m * c = 0: np.fromfile(count = 0) touches nothing) is followed by m row lines, which are read
+   and dropped whatever they hold (/repo 20317ef; export writes m empty lines there);
    the ktensor constructor needs matrices with as many columns as there are weights *)
 Fixpoint rd_factors_l (R n : nat) (s : stream) : option (list (list (list D))) :=
   match n with
@@ -133,7 +140,9 @@ Fixpoint rd_factors_l (R n : nat) (s : stream) : option (list (list (list D))) :
       match fst sh with
       | [m; c] =>
           if Nat.eqb c R then
-            v <- rd_vals (m * c) (snd sh) ;; q <- rd_factors_l R n' (snd v) ;; Some (reshapeC2 D m c (fst v) :: q)
+            v <- rd_vals (m * c) (snd sh) ;;
+            q <- rd_factors_l R n' (if Nat.eqb (m * c) 0 then drop_lines m (snd v) else snd v) ;;
+            Some (reshapeC2 D m c (fst v) :: q)
           else None
       | _ => None
       end
@@ -166,7 +175,9 @@ Definition import_stream (b : Z) (s : stream) : option (obj D) :=
         let pr := readline (snd sh) in
         zr <- head_int (fst pr) ;; r <- nat_of zr ;;
         let w := rd_weights r (snd pr) in
-        f <- rd_factors_l (length (fst w)) (length (fst sh)) (snd w) ;;
+        (* rank line 0: np.fromfile(count = 0) leaves the weights line (empty in what export writes), one readline drops it
+           whatever it holds (/repo 20317ef) *)
+        f <- rd_factors_l (length (fst w)) (length (fst sh)) (if Nat.eqb r 0 then snd (readline (snd w)) else snd w) ;;
         Some (OKtensor (mkK (fst w) f))
       else None
   | _ => None
